@@ -394,6 +394,9 @@ func (propC02) Run(scI interface{}) *Outcome {
 			if op.K != "reghot" && op.K != "renderhot" && op.K != "writefs" {
 				continue
 			}
+			if (op.K == "writefs" || op.Name == "fsdoc") && !(sc.Cache == "autoreload" && sc.Loader == "fs") {
+				continue // a file rewrite is only specified to become visible under auto-reload with the fs loader
+			}
 			in := hotIn{Reg: op.K == "reghot" || op.K == "writefs"}
 			out := -1
 			if in.Reg {
@@ -570,12 +573,20 @@ func (propC02) Shrink(scI interface{}) []interface{} {
 		c.Debug = false
 		out = append(out, c)
 	}
-	if sc.Loader != "array" {
+	usesFS := false
+	for _, ops := range sc.Tasks {
+		for _, op := range ops {
+			if op.K == "writefs" || op.Name == "fsdoc" {
+				usesFS = true // these operations only mean something with the fs loader under auto-reload
+			}
+		}
+	}
+	if sc.Loader != "array" && !usesFS {
 		c := clone()
 		c.Loader = "array"
 		out = append(out, c)
 	}
-	if sc.Cache != "on" {
+	if sc.Cache != "on" && !usesFS {
 		c := clone()
 		c.Cache = "on"
 		out = append(out, c)
